@@ -15,7 +15,9 @@ Mirrors (Go, /repo/pkg):
                                                        AppendWipToSegfile.segmeta / checkAndRotateColFiles.segmeta)
                                checkAndRotateColFiles  the same literal, handed to addSegmeta (→ WriteSfm + segmeta.json line)
                                WipBlock.adjustEarliestLatestTimes  the block summary's LowTs / HighTs, same rule per block
-  segment/query/queryrefresh.go readSegFullMetaFileAndPopulate: the adopted record IS the .sfm content
+  segment/query/queryrefresh.go readSegFullMetaFileAndPopulate: the adopted record is the .sfm content, made to cover
+                               every block summary of the segment (coverBlockSummaries: `reconciled` in Model/Crash.lean;
+                               before that repair: the .sfm content as it is, `metasOld`)
   segment/metadata             FilterSegmentsByTime → timeRange.CheckRangeOverLap(seg.EarliestEpochMS, seg.LatestEpochMS)
                                (the regenerated kernel Gen.TimeRange_CheckRangeOverLap); blocks: the same test on the block
                                summary; records: CheckInRange
@@ -118,20 +120,25 @@ def removalCutoff : Nat → List SM → SM → Nat
     if F.lo ≤ m.lo then F.lo
     else removalCutoff fuel ((F :: rest).filter (fun x => !(decide (F.lo ≤ x.lo)))) m
 
-/-- the blocks (flushes) a record search reads after the restart, for a given rule `mf` of building the metadata
-records: the requests are the adopted segments whose advertised range overlaps the window; a request is read when
-its advertised end reaches the cut-off of the round that drops it; therein every block summary with all its chunks
-whose own range overlaps the window and whose HighTs reaches that cut-off -/
-def searchFlushesWith (mf : Evs → List Nat → SM) (evs : Evs) (fs : FS) (q : Query) : List Nat :=
-  let cand := (metas fs).filter (fun p => rangePass (mf evs p.2) q)
+/-- the blocks (flushes) a record search reads when the node holds the metadata records `ml` (segment, flushes the
+record was built from), for a given rule `mf` of building a record: the requests are the segments whose advertised
+range overlaps the window; a request is read when its advertised end reaches the cut-off of the round that drops
+it; therein every block summary with all its chunks whose own range overlaps the window and whose HighTs reaches
+that cut-off -/
+def searchFlushesOn (ml : List (Nat × List Nat)) (mf : Evs → List Nat → SM) (evs : Evs) (fs : FS) (q : Query) : List Nat :=
+  let cand := ml.filter (fun p => rangePass (mf evs p.2) q)
   let order := (sortQ (cand.map (fun p => (mf evs p.2, p.1)))).map (·.1)
-  (metas fs).flatMap (fun p =>
+  ml.flatMap (fun p =>
     let m := mf evs p.2
     let c := removalCutoff order.length order m
     if rangePass m q && decide (c ≤ m.hi) then
       (segVisible (fs.seg p.1)).filter (fun f =>
         rangePass (SM.ofEvents (evs f)) q && decide (c ≤ (SM.ofEvents (evs f)).hi))
     else [])
+
+/-- … after the restart (records: `metas`) -/
+def searchFlushesWith (mf : Evs → List Nat → SM) (evs : Evs) (fs : FS) (q : Query) : List Nat :=
+  searchFlushesOn (metas fs) mf evs fs q
 
 def searchFlushes (evs : Evs) (fs : FS) (q : Query) : List Nat := searchFlushesWith metaOf evs fs q
 
@@ -142,22 +149,36 @@ def lastCutoff : Nat → List SM → Nat → Nat
   | _ + 1, [], c => c
   | fuel + 1, F :: rest, _ => lastCutoff fuel ((F :: rest).filter (fun x => !(decide (F.lo ≤ x.lo)))) F.lo
 
-/-- the events a search returns after the restart -/
-def searchWith (mf : Evs → List Nat → SM) (evs : Evs) (fs : FS) (q : Query) : List Ev :=
-  (searchFlushesWith mf evs fs q).flatMap (fun f => (evs f).filter (evPass q))
+/-- the events of the blocks read that satisfy the search -/
+def searchOn (ml : List (Nat × List Nat)) (mf : Evs → List Nat → SM) (evs : Evs) (fs : FS) (q : Query) : List Ev :=
+  (searchFlushesOn ml mf evs fs q).flatMap (fun f => (evs f).filter (evPass q))
 
+def searchWith (mf : Evs → List Nat → SM) (evs : Evs) (fs : FS) (q : Query) : List Ev :=
+  searchOn (metas fs) mf evs fs q
+
+/-- the events a search returns after the restart -/
 def search (evs : Evs) (fs : FS) (q : Query) : List Ev := searchWith metaOf evs fs q
 
-/-- records a record search has read and can never hand out (searcher.go fetchRRCs: a record is handed out only when
-its timestamp has reached the current cut-off, `unsentRRCs` keeps the rest for a later round; the search ends only
-when `unsentRRCs` is empty): the matching records of the blocks read that lie below the cut-off of the LAST round.
-When there are any, `QueryProcessor.GetFullResult` never sees io.EOF — the query spins for ever. -/
-def stuckWith (mf : Evs → List Nat → SM) (evs : Evs) (fs : FS) (q : Query) : List Ev :=
-  let cand := (metas fs).filter (fun p => rangePass (mf evs p.2) q)
+/-- the records of the blocks read that lie below the cut-off of the LAST round (searcher.go fetchRRCs: while
+rounds are left a record is handed out only when its timestamp has reached the current cut-off, `unsentRRCs` keeps
+the rest for a later round).  With records that cover their blocks there are none. -/
+def keptBackOn (ml : List (Nat × List Nat)) (mf : Evs → List Nat → SM) (evs : Evs) (fs : FS) (q : Query) : List Ev :=
+  let cand := ml.filter (fun p => rangePass (mf evs p.2) q)
   let order := (sortQ (cand.map (fun p => (mf evs p.2, p.1)))).map (·.1)
-  (searchWith mf evs fs q).filter (fun e => decide (e.ts < lastCutoff order.length order 0))
+  (searchOn ml mf evs fs q).filter (fun e => decide (e.ts < lastCutoff order.length order 0))
 
-def stuck (evs : Evs) (fs : FS) (q : Query) : List Ev := stuckWith metaOf evs fs q
+def keptBack (evs : Evs) (fs : FS) (q : Query) : List Ev := keptBackOn (metas fs) metaOf evs fs q
+
+/-- the answer of a record search of the restarted node; `none` = the search never returns.
+fetchRRCs: once every segment has given its blocks and the last of them are being read, everything kept back is
+handed out (`lastBlocks`), so the search ends whatever the records advertise. -/
+def answer (evs : Evs) (fs : FS) (q : Query) : Option (List Ev) := some (search evs fs q)
+
+/-- BEFORE the two repairs (records as the .sfm had them, `metasOld`; fetchRRCs without `lastBlocks`): a record kept
+back after the last round was never handed out, the search ended only when `unsentRRCs` was empty —
+`QueryProcessor.GetFullResult` never saw io.EOF and the query span for ever -/
+def answerOld (evs : Evs) (fs : FS) (q : Query) : Option (List Ev) :=
+  if (keptBackOn (metasOld fs) metaOf evs fs q).isEmpty then some (searchOn (metasOld fs) metaOf evs fs q) else none
 
 /-- `* | stats count` over a window after the restart: per adopted segment nothing when the advertised range misses
 the window, the advertised RecordCount when the window encloses the advertised range, else the records found by
@@ -170,12 +191,14 @@ def countQ (evs : Evs) (fs : FS) (q : Query) : Nat :=
     else (((segVisible (fs.seg p.1)).filter (fun f => rangePass (SM.ofEvents (evs f)) q)).flatMap
             (fun f => (evs f).filter (evPass q))).length)).foldl (· + ·) 0
 
-/-- events that come back from a search WITHOUT one of their columns: the record reader reads the columns the
-segment's metadata record names, so an event served from a segment whose advertised column set misses one of its
-columns loses that field -/
-def alteredIn (evs : Evs) (fs : FS) (res : List Ev) : List Nat :=
-  (metas fs).flatMap (fun p => (segVisible (fs.seg p.1)).flatMap (fun f =>
+/-- events that come back from a search WITHOUT one of their columns, when the node holds the records `ml`: the
+record reader reads the columns the segment's metadata record names, so an event served from a segment whose
+advertised column set misses one of its columns loses that field -/
+def alteredOn (ml : List (Nat × List Nat)) (evs : Evs) (fs : FS) (res : List Ev) : List Nat :=
+  ml.flatMap (fun p => (segVisible (fs.seg p.1)).flatMap (fun f =>
     ((evs f).filter (fun e => res.contains e && !(e.cols.all (fun c => (metaOf evs p.2).cols.contains c)))).map (·.id)))
+
+def alteredIn (evs : Evs) (fs : FS) (res : List Ev) : List Nat := alteredOn (metas fs) evs fs res
 
 /-- a metadata record covers an event: its time range contains the timestamp, its column set the columns -/
 def SM.covers (m : SM) (e : Ev) : Prop := m.lo ≤ e.ts ∧ e.ts ≤ m.hi ∧ ∀ c ∈ e.cols, c ∈ m.cols
